@@ -67,19 +67,27 @@ package erpc
 
 // ---- session.write: the single place where a frame is handed to the socket ----
 // (body verified under C07; here: what a caller may rely on about its frame)
+//@ ghost global writeAttempts int
+//@ ghost global writesOK int
+//@ ghost global lastWriteOK bool
 //@ trusted (*session).write
 //@   flags libframe
 //@   modifies as(message, type(*socket.message)).size, lockset, waitgroups
+//@   ghostset ghost.writeAttempts = old(ghost.writeAttempts) + 1
+//@   ghostset ghost.writesOK = old(ghost.writesOK) + (statOK(result.1) ? 1 : 0)
+//@   ghostset ghost.lastWriteOK = statOK(result.1)
 
 // ---- C12: a reply goes out through the caller's transfer-filter pipe ---------
 // writeReply only rewrites status/body/codec (error replies) and temporarily the
 // service method; in particular the pipe handleCall built with AppendFrom stays.
 //@ func (*handlerCtx).writeReply
-//@   property C12 C04
+//@   property C12 C04 C03
 //@   flags libframe
 //@   requires ctxShape(c) && c.sess != nil
 //@   let mo = as(c.output, type(*socket.message))
-//@   modifies mo.status, mo.body, mo.bodyCodec, mo.serviceMethod, mo.size, lockset, waitgroups
+//@   modifies mo.status, mo.body, mo.bodyCodec, mo.serviceMethod, mo.size, lockset, waitgroups, ghost.writeAttempts, ghost.writesOK, ghost.lastWriteOK
+//@   requires[reply-to-this-call] @C03 mo.seq == as(c.input, type(*socket.message)).seq && mo.mtype == TypeReply
+//@   ensures[one-write] @C03 ghost.writeAttempts == old(ghost.writeAttempts) + 1 && ghost.writesOK == old(ghost.writesOK) + (statOK(result) ? 1 : 0) && ghost.lastWriteOK == statOK(result)
 //@   requires[through-callers-pipe] @C12 mo.xferPipe.#inheritedFrom == as(c.input, type(*socket.message)).xferPipe
 //@   ensures[pipe-kept] @C12 mo.xferPipe == old(mo.xferPipe) && mo.xferPipe.filters == old(mo.xferPipe.filters)
 //@   ensures[error-reply-shape] @C04 !statOK(stat) ==> mo.status == stat && mo.body == nil && mo.bodyCodec == 0
@@ -87,8 +95,13 @@ package erpc
 //@   ensures[service-method-restored] mo.serviceMethod == old(mo.serviceMethod)
 
 //@ func (*handlerCtx).handleCall
-//@   property C12 C09
+//@   property C12 C09 C03
 //@   flags recover-scope
+//@   requires @C03 sentinelsIntact() && (c.handler == nil ==> !statOK(c.stat))
+//@   ensures[handler-at-most-once]! @C03 ghost.handlerCalls <= old(ghost.handlerCalls) + 1
+//@   ensures[replied-at-most-once]! @C03 ghost.writesOK <= old(ghost.writesOK) + 1
+//@   ensures[replied-unless-write-failed]! @C03 ghost.writesOK == old(ghost.writesOK) + 1 || !ghost.lastWriteOK
+//@   ensures[reply-attempted]! @C03 ghost.writeAttempts >= old(ghost.writeAttempts) + 1
 //@   requires ctxShape(c) && c.sess != nil
 //@   requires @C09 c.pluginContainer != nil && (c.handler != nil ==> c.pluginContainer == c.handler.pluginContainer)
 
@@ -99,16 +112,22 @@ package erpc
 // do not replace the context's messages, session, metadata or pipe OBJECTS.
 // They may panic. (Assumption about arbitrary user code, listed in the evidence.)
 //@ frameset msgUser(m *socket.message) = m.serviceMethod, m.status, m.body, m.ctx, m.bodyCodec, fields(m.meta), allelems(type(utils.argsKV)), m.xferPipe.filters, allelems(type(xfer.XferFilter))
-//@ frameset userCtx(c *handlerCtx) = c.stat, msgUser(as(c.input, type(*socket.message))), msgUser(as(c.output, type(*socket.message)))
+//@ frameset userCtx(c *handlerCtx) = msgUser(as(c.input, type(*socket.message))), msgUser(as(c.output, type(*socket.message)))
+//@ frameset handlerFrame(c *handlerCtx) = c.stat, userCtx(c)
 
+//@ ghost global handlerCalls int
 //@ iface dynamic:func(*erpc.handlerCtx, reflect.Value)
 //@   params hc arg
 //@   flags libframe may-panic
-//@   modifies userCtx(hc)
+//@   requires[all-pre-handler-stages-ok] @C03 statOK(hc.stat)
+//@   modifies handlerFrame(hc)
+//@   ghostset ghost.handlerCalls = old(ghost.handlerCalls) + 1
 //@ iface dynamic:func(*erpc.handlerCtx)
 //@   params hc
 //@   flags libframe may-panic
-//@   modifies userCtx(hc)
+//@   requires[all-pre-handler-stages-ok] @C03 statOK(hc.stat)
+//@   modifies handlerFrame(hc)
+//@   ghostset ghost.handlerCalls = old(ghost.handlerCalls) + 1
 //@ iface dynamic:func() int64
 //@   flags pure
 
@@ -455,8 +474,11 @@ package erpc
 //@   requires c.sess != nil && c.sess.peer != nil && c.pluginContainer == c.sess.peer.pluginContainer && c.pluginContainer != nil
 //@   ensures[route-container] c.handler != nil && statOK(c.stat) ==> c.pluginContainer == c.handler.pluginContainer
 //@ func (*handlerCtx).handlePush
-//@   property C09
+//@   property C09 C03
 //@   flags recover-scope
+//@   requires @C03 c.handler == nil ==> !statOK(c.stat)
+//@   ensures[handler-at-most-once]! @C03 ghost.handlerCalls <= old(ghost.handlerCalls) + 1
+//@   ensures[push-never-replies]! @C03 ghost.writeAttempts == old(ghost.writeAttempts)
 //@   requires ctxShape(c) && c.sess != nil && (c.handler != nil && statOK(c.stat) ==> c.pluginContainer == c.handler.pluginContainer)
 
 // route lookup through the session's handler getters (method values of the
@@ -622,3 +644,21 @@ package erpc
 //@   requires s.peer != nil && s.socket != nil && s.peer.pluginContainer != nil
 //@   ensures[reader-ends-in-disconnect] ghost.disconnectRuns == old(ghost.disconnectRuns) + 1
 //@   ensures[reader-ends-in-disconnect-after-panic]! ghost.disconnectRuns == old(ghost.disconnectRuns) + 1
+
+// ---- logging: output only (keeps verification conditions small) ------------------
+//@ trusted Printf
+//@   flags libframe
+//@ trusted Criticalf
+//@   flags libframe
+//@ trusted Errorf
+//@   flags libframe
+//@ trusted Warnf
+//@   flags libframe
+//@ trusted Noticef
+//@   flags libframe
+//@ trusted Infof
+//@   flags libframe
+//@ trusted Debugf
+//@   flags libframe
+//@ trusted Tracef
+//@   flags libframe
